@@ -228,6 +228,10 @@ def build(P):
                                     + ["PROCEDURE Show(BYVAL x : Rr)"] + dumpr("x") + ["ENDPROCEDURE", "CALL Show(u[3])", "FUNCTION Mk() RETURNS Rr", "RETURN t[3]", "ENDFUNCTION", "r <- Mk()"] + dumpr("r")))
         shapes += [
             "DECLARE z : ARRAY[1:2] OF INTEGER\nOUTPUT z[1], z[2]",
+            "DECLARE grid : ARRAY[1:3, 1:3] OF INTEGER\nFUNCTION Touch() RETURNS INTEGER\nOUTPUT \"touch\"\ngrid[1, 1] <- 99\nRETURN 2\nENDFUNCTION\ngrid[1, 1] <- 7\nOUTPUT \"before\"\ngrid[4, Touch()] <- 5\nOUTPUT \"not reached\"",
+            "DECLARE grid : ARRAY[1:3, 1:3] OF INTEGER\nFUNCTION Touch() RETURNS INTEGER\nOUTPUT \"touch\"\nRETURN 2\nENDFUNCTION\nOUTPUT \"before\"\nOUTPUT grid[0, Touch()]\nOUTPUT \"not reached\"",
+            "DECLARE cube : ARRAY[1:2, 1:2, 1:2] OF INTEGER\nFUNCTION T(k : INTEGER) RETURNS INTEGER\nOUTPUT \"t\", k\nRETURN k\nENDFUNCTION\nOUTPUT \"before\"\ncube[T(1), T(3), T(2)] <- 5\nOUTPUT \"not reached\"",
+            "DECLARE cube : ARRAY[1:2, 1:2, 1:2] OF INTEGER\nFUNCTION T(k : INTEGER) RETURNS INTEGER\nOUTPUT \"t\", k\nRETURN k\nENDFUNCTION\nOUTPUT \"before\"\ncube[T(1), T(2), T(TRUE)] <- 5\nOUTPUT \"not reached\"",
             "DECLARE Grid : ARRAY[1:3, 1:3] OF INTEGER\nFOR i <- 1 TO 3\nFOR j <- 1 TO 3\nGrid[i, j] <- i * 10 + j\nNEXT j\nNEXT i\nFUNCTION Walk(n : INTEGER) RETURNS INTEGER\nIF n = 0 THEN\nRETURN 0\nENDIF\nRETURN Grid[n, Walk(n - 1) MOD 3 + 1]\nENDFUNCTION\nOUTPUT Walk(1), \" \", Walk(2), \" \", Walk(3)",
             "DECLARE Marks : ARRAY[0:3, 0:3] OF INTEGER\nFUNCTION Mark(n : INTEGER) RETURNS INTEGER\nIF n > 0 THEN\nMarks[n, Mark(n - 1)] <- n\nENDIF\nRETURN n\nENDFUNCTION\nOUTPUT Mark(3)\nFOR i <- 0 TO 3\nOUTPUT Marks[i, 0], Marks[i, 1], Marks[i, 2], Marks[i, 3]\nNEXT i",
             "DECLARE Cube : ARRAY[1:2, 1:2, 1:2] OF INTEGER\nk <- 0\nFOR a <- 1 TO 2\nFOR b <- 1 TO 2\nFOR c <- 1 TO 2\nk <- k + 1\nCube[a, b, c] <- k\nNEXT c\nNEXT b\nNEXT a\nFUNCTION Dig(n : INTEGER) RETURNS INTEGER\nIF n = 0 THEN\nRETURN 1\nENDIF\nRETURN Cube[Dig(n - 1) MOD 2 + 1, n MOD 2 + 1, Dig(n - 1) MOD 2 + 1] MOD 2 + 1\nENDFUNCTION\nOUTPUT Dig(1), Dig(2), Dig(3), Dig(4)",
@@ -466,6 +470,15 @@ def build(P):
                     "the sentinel) and as REPL histories with the constant echoed after the attempt (compared with the model); random programs threading constants through calls")
 
     # ------------------------------------------------------------------ C09
+    C09_SHAPES = []
+    def c09_shapes():
+        if not C09_SHAPES:
+            for _ in c09_cases("quick", 1):
+                if C09_SHAPES: break
+        return list(C09_SHAPES)
+    global C09_SHAPES_FN
+    C09_SHAPES_FN = c09_shapes
+
     def c09_cases(tier, seed):
         shapes = [
             "TYPE P = ^INTEGER\nDECLARE p, q : P\nx <- 5\np <- ^x\nOUTPUT p^\nx <- 6\nOUTPUT p^\np^ <- 7\nOUTPUT x\nq <- p\nq^ <- 8\nOUTPUT x, p^",
@@ -487,6 +500,9 @@ def build(P):
             "TYPE P = ^INTEGER\nTYPE Q = ^STRING\nDECLARE p : P\nDECLARE q : Q\nx <- 1\np <- ^x\nq <- p",
             "TYPE P = ^INTEGER\nDECLARE gp : P\nFUNCTION Rd() RETURNS INTEGER\nRETURN gp^\nENDFUNCTION\nPROCEDURE A\nDECLARE loc : INTEGER\nloc <- 5\ngp <- ^loc\nOUTPUT \"function callee sees \", Rd()\nENDPROCEDURE\nCALL A",
             "TYPE P = ^INTEGER\nFUNCTION Rd(q : P) RETURNS INTEGER\nq^ <- q^ + 1\nRETURN q^\nENDFUNCTION\nFUNCTION Outer(v : INTEGER) RETURNS INTEGER\nDECLARE lp : P\nlp <- ^v\nRETURN Rd(lp) + Rd(lp)\nENDFUNCTION\nOUTPUT Outer(10)",
+            "TYPE P = ^INTEGER\nDECLARE gp : P\nPROCEDURE Mk\nDECLARE loc : INTEGER\nloc <- 11\ngp <- ^loc\nENDPROCEDURE\nPROCEDURE Later\nOUTPUT gp^\nENDPROCEDURE\nCALL Mk\nCALL Later",
+            "TYPE P = ^INTEGER\nDECLARE gp : P\nPROCEDURE Mk\nDECLARE loc : INTEGER\nloc <- 11\ngp <- ^loc\nENDPROCEDURE\nPROCEDURE Later\ngp^ <- 3\nOUTPUT \"wrote\"\nENDPROCEDURE\nCALL Mk\nCALL Later",
+            "TYPE P = ^INTEGER\nDECLARE gp : P\nPROCEDURE Mk\nDECLARE loc : INTEGER\nloc <- 11\ngp <- ^loc\nENDPROCEDURE\nFUNCTION Later(a : INTEGER, b : INTEGER) RETURNS INTEGER\nDECLARE c, d : INTEGER\nc <- a\nd <- b\nRETURN gp^ + c + d\nENDFUNCTION\nCALL Mk\nCALL Mk\nOUTPUT Later(1, 2)",
             # targets inside nested records, arrays of records and array fields
             "TYPE In\nDECLARE x : INTEGER\nENDTYPE\nTYPE Out\nDECLARE inner : In\nDECLARE y : INTEGER\nENDTYPE\nTYPE P = ^INTEGER\nDECLARE r : Out\nDECLARE q : P\nr.inner.x <- 20\nq <- ^r.inner.x\nOUTPUT q^\nq^ <- q^ + 3\nOUTPUT r.inner.x, \" \", q^",
             "TYPE In\nDECLARE x : INTEGER\nENDTYPE\nTYPE Mid\nDECLARE inner : In\nENDTYPE\nTYPE Out\nDECLARE mid : Mid\nENDTYPE\nTYPE P = ^INTEGER\nDECLARE r : Out\nDECLARE q : P\nq <- ^r.mid.inner.x\nq^ <- 9\nOUTPUT r.mid.inner.x",
@@ -496,6 +512,7 @@ def build(P):
             "TYPE In\nDECLARE x : INTEGER\nENDTYPE\nTYPE Out\nDECLARE inner : In\nENDTYPE\nTYPE P = ^INTEGER\nDECLARE r, s : Out\nDECLARE q : P\nr.inner.x <- 1\ns <- r\nq <- ^s.inner.x\nq^ <- 5\nOUTPUT r.inner.x, s.inner.x\nFUNCTION Mk() RETURNS Out\nDECLARE t : Out\nt.inner.x <- 7\nRETURN t\nENDFUNCTION\ns <- Mk()\nq <- ^s.inner.x\nOUTPUT q^", "TYPE P = ^INTEGER\nDECLARE p : P\nx <- 1\np <- ^x\nOUTPUT p\np",
             "TYPE P = ^INTEGER\nDECLARE p : P\nCONSTANT K = 3\np <- ^K\nOUTPUT p^", "TYPE P = ^Nope", "TYPE P = ^INTEGER\nTYPE P = ^STRING",
         ]
+        C09_SHAPES[:] = shapes
         yield ("shapes", [Case(id="C09-shape-%d" % i, prog=(s + "\n").encode()) for i, s in enumerate(shapes)])
         # pointer assignment: every (pointer target type, variable type) pair incl. user types of the same kind and pointers to pointers; p <- ^v is accepted
         # exactly for identical types, and then p^ reads / writes v
